@@ -245,6 +245,12 @@ def leg_faultpoints(base_seed, index, opts):
             for kind in [kd for kd in ('nan', '+inf') if kd in kinds]:
                 plans.append([{'at': k, 'kind': kind, 'comp': 'all', 'scope': 'once'}])
                 cuts[len(plans) - 1] = k + d
+    # second-order interactions: every pair k1 < k2 of bad replies, for short reference runs only
+    if opts.get('pairs') and nf_ref <= int(opts.get('pair_cap', 20)):
+        for k1 in range(1, nf_ref + 1):
+            for k2 in range(k1 + 1, nf_ref + 1):
+                for (a_, b_) in opts.get('pair_kinds', (('nan', 'nan'), ('nan', '+inf'), ('+inf', 'nan'))):
+                    plans.append([{'at': k1, 'kind': a_, 'comp': 'all', 'scope': 'once'}, {'at': k2, 'kind': b_, 'comp': 'all', 'scope': 'once'}])
     for pi, plan in enumerate(plans):
         if pi % slices != my_slice:
             continue
